@@ -59,6 +59,44 @@ Proof. exact decode. Qed.
 Theorem memory_code_below_first_threshold : forall C c b, 0 < C -> 0 <= c < C -> 0 <= b < 2 -> enc C (-1) c b < 0.
 Proof. exact enc_below. Qed.
 
+(* 3. binned = exact on floored scores.
+   AUROC (proved in full): for every sorted non-empty threshold list whose first element is <= every score
+   (in particular T_0 = 0 and scores in [0,1]; scores above the last threshold are allowed), the binned AUROC
+   -- zero-padded, reversed per-threshold counts, torch.trapz, division by P*N, 1/2 when P*N = 0 -- equals the
+   exact AUROC (pairs positive>negative count 1, ties 1/2) of the scores rounded down to the nearest threshold. *)
+Theorem binned_auroc_floor : forall (T : list Z) (xs : list sample),
+  asc T -> T <> [] -> (forall x, In x xs -> hd 0 T <= fst x) ->
+  binary_binned_auroc T xs = auroc_exact (floored T xs).
+Proof. exact binned_auroc_floor_thm. Qed.
+(* per task: what BinaryBinnedAUROC.compute() returns *)
+Theorem binned_auroc_floor_per_task : forall (c : bcfg) (cols : list bcol),
+  cols <> [] -> asc (thresholds c) -> thresholds c <> [] ->
+  (forall t x, In x (task_row t cols) -> hd 0 (thresholds c) <= fst x) ->
+  broc_fun c cols = Some (map (fun t => auroc_exact (floored (thresholds c) (task_row t cols))) (seq 0 (bC c)), thr_q c).
+Proof. exact broc_fun_floor. Qed.
+(* per class: REFUTED for the multiclass form as implemented (one value per sample, not per class) --
+   finding C06-multiclass-binned-auroc-per-sample *)
+Theorem binned_auroc_floor_per_class_multiclass_refuted :
+  (exists C T xs, mc_ok C xs = true /\ asc T /\ length (mc_binned_auroc_algo C T xs) <> length (mc_binned_auroc_spec C T xs)) /\
+  (exists C T xs, mc_ok C xs = true /\ asc T /\ length (mc_binned_auroc_algo C T xs) = length (mc_binned_auroc_spec C T xs)
+                  /\ mc_binned_auroc_algo C T xs <> mc_binned_auroc_spec C T xs).
+Proof. exact mc_binned_auroc_refuted. Qed.
+(* AUPRC -- PARTIAL.  Proved: the three count vectors, hence the binned PR curve and the binned AUPRC, of the
+   scores equal those of the floored scores (which all sit ON thresholds).  Not proved: that on floored scores
+   the riemann sum over threshold indices equals [auprc_exact] (sum over the DISTINCT floored scores of
+   recall increment x precision; empty buckets and duplicated thresholds add zero increments).  That last
+   step is tied on every run (exhaustive <= 4 samples; random per task / per class) against [auprc_exact]
+   and against the real exact binary_auprc. *)
+Theorem binned_counts_depend_on_floors_only : forall (T : list Z) (xs : list sample),
+  asc T -> T <> [] -> (forall x, In x xs -> hd 0 T <= fst x) ->
+  bin_tp T (floored T xs) = bin_tp T xs /\ bin_fp T (floored T xs) = bin_fp T xs /\ bin_fn T (floored T xs) = bin_fn T xs.
+Proof. exact binned_counts_floor_invariant. Qed.
+Theorem binned_auprc_floor_partial : forall (T : list Z) (xs : list sample),
+  asc T -> T <> [] -> (forall x, In x xs -> hd 0 T <= fst x) ->
+  auprc_curve (map zq (bin_tp T xs)) (map zq (bin_fp T xs)) (map zq (bin_fn T xs))
+  = auprc_curve (map zq (bin_tp T (floored T xs))) (map zq (bin_fp T (floored T xs))) (map zq (bin_fn T (floored T xs))).
+Proof. exact binned_auprc_floor_invariant. Qed.
+
 (* non-vacuity: duplicated thresholds, neither 0 nor 1 a member; scores below the first, ON a threshold,
    between, and above the last threshold (grid of eighths) *)
 Example binned_counts_example :
@@ -75,6 +113,24 @@ Example binned_modes_example :
                     [[1; 1; 1]; [1; 1; 1]; [1; 1; 1]; [0; 1; 1]]).
 Proof. split; [repeat constructor; lia|vm_compute; auto]. Qed.
 
+(* floors: scores between thresholds, ON a duplicated threshold and above the last one; a tie after flooring *)
+Example binned_auroc_floor_example :
+  let T := [0; 4; 4; 8] in
+  let xs : list sample := [(3, true); (0, false); (5, false); (4, true); (9, true); (7, false)] in
+  asc T /\ (forall x, In x xs -> hd 0 T <= fst x) /\
+  floored T xs = [(0, true); (0, false); (4, false); (4, true); (8, true); (4, false)] /\
+  vq (binary_binned_auroc T xs) = VQ 11 18 /\ vq (auroc_exact (floored T xs)) = VQ 11 18.
+Proof.
+  split; [repeat constructor; lia|]. split; [|vm_compute; auto].
+  intros x Hx. cbn in Hx. repeat (destruct Hx as [<-|Hx]; [cbn; lia|]). destruct Hx.
+Qed.
+Example binned_auprc_floor_example :
+  let T := [0; 4; 4; 8] in
+  let xs : list sample := [(3, true); (0, false); (5, false); (4, true); (9, true); (7, false)] in
+  xq_val (auprc_curve (map zq (bin_tp T xs)) (map zq (bin_fp T xs)) (map zq (bin_fn T xs))) = VQ 2 3 /\
+  xq_val (Fin (auprc_exact (floored T xs))) = VQ 2 3.
+Proof. vm_compute. auto. Qed.
+
 Print Assumptions binned_counts_spec.
 Print Assumptions binned_counts_vectors.
 Print Assumptions param_check_gives_sorted.
@@ -86,3 +142,8 @@ Print Assumptions binned_modes_agree_update_multiclass.
 Print Assumptions binned_modes_agree_update_multilabel.
 Print Assumptions memory_code_decodes.
 Print Assumptions memory_code_below_first_threshold.
+Print Assumptions binned_auroc_floor.
+Print Assumptions binned_auroc_floor_per_task.
+Print Assumptions binned_auroc_floor_per_class_multiclass_refuted.
+Print Assumptions binned_counts_depend_on_floors_only.
+Print Assumptions binned_auprc_floor_partial.
